@@ -399,13 +399,13 @@ theorem imm_succeeds_when_granted (e : Ev) (id prio : Nat) (m : Mem) (hg : ∀ n
   | cons x rest =>
     simp only
     cases hst2 : e.qPool.stack with
-    | cons y rest2 => simp [hst2]
-    | nil => simp [hst2, Mem.malloc, hg m.n qSize (Nat.le_refl _)]
+    | cons y rest2 => simp
+    | nil => simp [Mem.malloc, hg m.n qSize (Nat.le_refl _)]
   | nil =>
     simp only [Mem.malloc, hg m.n recSize (Nat.le_refl _)]
     cases hst2 : e.qPool.stack with
-    | cons y rest2 => simp [hst2]
-    | nil => simp [hst2, hg (m.n + 1) qSize (by omega)]
+    | cons y rest2 => simp
+    | nil => simp [hg (m.n + 1) qSize (by omega)]
 
 theorem tm_fail_unchanged (e : Ev) (id : Nat) (usec now : Int) (m : Mem) (hf : (tmReg e id usec now m).1 = false) :
     registry (tmReg e id usec now m).2.1 = registry e := by
